@@ -1180,7 +1180,9 @@ func (c *Ctx) nilDecided(v ssa.Value, depth int) (*Formula, bool) {
 
 func (c *Ctx) nilDecidedCall(call *ssa.Call, idx, depth int) (*Formula, bool) {
 	f := call.Common().StaticCallee()
-	if f == nil || !c.inlinable(f) {
+	// the helper may loop (e.g. to log): only the path conditions of its return sites and the
+	// nil-ness of what they return are used, never a value computed in the loop
+	if f == nil || !(c.inlinable(f) || (c.p.inRepo(f) && f.Blocks != nil && f != c.fn && f != c.scope && f.Recover == nil && c.depth < c.maxD && !c.noInl[f] && infoOf(f).ninstr <= 120 && c.p.readOnly(f))) {
 		return nil, false
 	}
 	args := make([]*Term, len(call.Common().Args))
